@@ -26,6 +26,7 @@ def showErr : Err → String
   | .emptyVector => "empty_vector" | .invalidTopK => "invalid_top_k"
   | .dimMismatch => "dim_mismatch" | .notFound => "not_found"
   | .collExists => "coll_exists" | .collNotFound => "coll_not_found" | .unsupported => "unsupported"
+  | .batchValidation => "batch_validation"
 
 def showMetric : Metric → String
   | .cosine => "cosine" | .euclid => "euclid" | .dot => "dot"
@@ -97,6 +98,17 @@ def parseFilter (s : String) : Option Filter :=
 
 def parseKeys (s : String) : List String := if s = "-" then [] else s.splitOn ","
 
+/-- `-` or `a:1,2;b:-;c:3` (`-` after the colon = empty vector) -/
+def parseBatch (s : String) : Option (List (String × List Int)) :=
+  if s = "-" then some []
+  else (s.splitOn ";").mapM fun kv =>
+    match kv.splitOn ":" with
+    | [k, v] => (parseInts v).map fun v => (k, v)
+    | _ => none
+
+def parseLimit (s : String) : Option (Option Nat) :=
+  if s = "-" then some none else s.toNat?.map some
+
 def parseDim (s : String) : Option (Option Nat) :=
   if s = "-" then some none else s.toNat?.map some
 
@@ -161,6 +173,18 @@ def vecStep (d : DState) (line : String) : DState × String :=
   | ["cdel", c, k] => doOp (.cdelete c k)
   | ["cbuild", c] => doOp (.cbuild c)
   | ["inval", c] => doOp (.invalidate (if c = "-" then none else some c))
+  | ["updm", k, md] => match parseMeta md with
+      | some md => doOp (.updateMeta k md) | none => bad
+  | ["rmf", k, f] => doOp (.removeMetaField k f)
+  | ["bstore", b] => match parseBatch b with
+      | some b => doOp (.batchStore b) | none => bad
+  | ["searchp", q, k, skip, limit] => match parseInts q, k.toNat?, skip.toNat?, parseLimit limit with
+      | some q, some k, some skip, some limit => (d, showOut q (searchPaged d.st q k skip limit))
+      | _, _, _, _ => bad
+  | ["searchp_ann", q, k, skip, limit, ids] => match parseInts q, k.toNat?, skip.toNat?, parseLimit limit with
+      | some q, some k, some skip, some limit =>
+        (d, annAnswer (searchPaged d.st q k skip limit) q (parseKeys ids))
+      | _, _, _, _ => bad
   | ["get", k] => match getDefault d.st k with
       | some v => (d, "ok " ++ showInts v) | none => (d, "err not_found")
   | ["cget", c, k] => match getColl d.st c k with
